@@ -77,6 +77,34 @@ def lookup_rule(chk, name, fm):
     chk.ob("C17.R1", where, "search-side-matches-base", args_ok and side_v == fm["side"],
            f"{name} positions are {fm['base']}-based, so the batch is found with searchsorted(lookup, s, side='{fm['side']}')",
            node=call, side=side_v, args=[norm(a) for a in call.args])
+    # every sample number in the format's range names a card: the loop skips a number only if it lies outside
+    # [base, base + total - 1], total = the last entry of the look-up table
+    from ..astutil import ancestors as _anc
+    esc = [x for x in walk_local(l) if isinstance(x, (ast.Continue, ast.Break)) and
+           not any(isinstance(a_, (ast.For, ast.While)) and a_ is not l and any(a_ is y for y in walk_local(l)) for a_ in _anc(x))]
+    bad_esc = []
+    for x in esc:
+        g = parent(x)
+        if not (isinstance(x, ast.Continue) and isinstance(g, ast.If) and parent(g) is l and not g.orelse and g.body[-1] is x
+                and all(isinstance(b_, ast.Expr) for b_ in g.body[:-1])):
+            bad_esc.append(f"line {x.lineno}: {type(x).__name__.lower()} not in a simple range guard")
+            continue
+        try:
+            t_ = Tx()
+            t_.post = _strip_int
+            got = t_.cond(expand_locals(g.test, fn, stop=(sv, LK)))
+            lo_, hi_ = (f"1 <= {sv}", f"{sv} <= {LK}[-1]") if fm["base"] == 1 else (f"0 <= {sv}", f"{sv} < {LK}[-1]")
+            w_ = Tx()
+            w_.post = _strip_int
+            want = w_.cond(ast.parse(f"not ({lo_} and {hi_})", mode="eval").body)
+            from .. import aud as _aud
+            if not _aud.cond_equiv(got, want)[0]:
+                bad_esc.append(f"line {x.lineno}: skips when {norm(g.test)[:70]}, which is not 'outside {fm['base']}..{'total' if fm['base'] == 1 else 'total-1'}'")
+        except symx.Unsupported as e:
+            bad_esc.append(f"line {x.lineno}: guard not understood ({e})")
+    chk.ob("C17.R1", where, "no-valid-number-skipped", not bad_esc,
+           f"every sample number from {fm['base']} to {'the total' if fm['base'] == 1 else 'the total minus one'} is looked up: the loop "
+           "leaves no number out except one outside that range", node=l, strength="N", **({"escapes": bad_esc} if bad_esc else {}))
     # R := int(searchsorted(...)), whether or not it is bound to a name
     st = call
     while not isinstance(st, ast.stmt):
